@@ -21,6 +21,13 @@ FORBIDDEN = re.compile(r"\b(sorry|admit|native_decide|bv_decide|implemented_by|u
 GOENV = dict(os.environ)
 GOENV.update({"GOFLAGS": "-mod=mod", "GOPROXY": "off", "GOSUMDB": "off", "GOTOOLCHAIN": "local"})
 GOENV.pop("TEMPLATE_DEBUG", None)
+# Generated packages are compiled at unique scratch paths, so every run adds ~1 GB of entries that
+# can never be hit again to the Go build cache. They go to a cache of their own, which is emptied
+# (when nobody is using it) once it is large or the disk is short; it refills by itself.
+BATCH_CACHE = os.environ.get("VH_BATCH_GOCACHE", "/tmp/goagverif-gocache")
+GOENV["VH_BATCH_GOCACHE"] = BATCH_CACHE
+BATCH_CACHE_MAX = 12 << 30
+DISK_FREE_MIN = 15 << 30
 
 NSHARDS = int(os.environ.get("VERIF_SHARDS", "16"))
 
@@ -43,6 +50,7 @@ class Ctx:
         self.coverage = {}
         self.assumptions = []
         self.broken = []         # broken obligations / correspondences without failing input (so far)
+        self._cache_lock = prepare_batch_cache()
 
     def cleanup(self):
         shutil.rmtree(self.scratch, ignore_errors=True)
@@ -51,6 +59,28 @@ class Ctx:
         d = os.path.join(self.scratch, name)
         os.makedirs(d, exist_ok=True)
         return d
+
+
+def prepare_batch_cache():
+    """Trim the batch build cache if no other check is using it; then hold a shared lock for this run."""
+    import fcntl
+    os.makedirs(BATCH_CACHE, exist_ok=True)
+    lockf = open(BATCH_CACHE + ".lock", "w")
+    try:
+        fcntl.flock(lockf, fcntl.LOCK_EX | fcntl.LOCK_NB)
+        try:
+            free = shutil.disk_usage(BATCH_CACHE).free
+            out = subprocess.run(["du", "-sb", BATCH_CACHE], stdout=subprocess.PIPE, stderr=subprocess.DEVNULL, text=True).stdout
+            size = int(out.split()[0]) if out.split() else 0
+            if size > BATCH_CACHE_MAX or free < DISK_FREE_MIN:
+                shutil.rmtree(BATCH_CACHE, ignore_errors=True)
+                os.makedirs(BATCH_CACHE, exist_ok=True)
+        finally:
+            fcntl.flock(lockf, fcntl.LOCK_UN)
+    except BlockingIOError:
+        pass
+    fcntl.flock(lockf, fcntl.LOCK_SH)
+    return lockf
 
 
 def run(cmd, cwd=None, env=None, timeout=None, stdin=None, capture=True):
@@ -240,6 +270,21 @@ def run_sharded(ctx, vh, facet, extra=(), nshards=None, timeout=3600, tag=None):
             ctx.broken.append({"kind": "harness-run", "detail": "%s shard exit %s: %s" % (facet, rc, tail)})
         outs.append(out)
     return outs
+
+
+def flag_broken_packages(ctx, gens, what):
+    """A package of the corpus that goag reported as written but that does not compile / parse cannot
+    satisfy any property about generated code: reported (with the spec as replay) instead of skipped."""
+    n = 0
+    for g in gens:
+        if len(g) > 4 and g[1] == "ok" and g[3]:
+            n += 1
+            if n <= 2:
+                ctx.violations.append({"kind": "goag reported success but the generated package does not compile, so " + what,
+                                       "package": g[0], "diagnostic": bytes.fromhex(g[3]).decode("utf-8", "replace")[:800],
+                                       "spec": bytes.fromhex(g[4]).decode("utf-8", "replace"),
+                                       "how": "write the spec to a file, run goag on it (with --client where the diagnostic names client.go), go build the output"})
+    return n
 
 
 def read_tsv(outs, name):
